@@ -482,7 +482,7 @@ pub fn build(r: &StreamRecipe) -> Built {
                     applied = Some(d.kind);
                 }
                 DKind::ZCinfo => {
-                    cinfo = 8 + (d.pos % 8) as u8;
+                    cinfo = [8u8, 8, 8, 9, 9, 10, 12, 15][(d.pos % 8) as usize];
                     applied = Some(d.kind);
                 }
                 DKind::ZFdict => {
